@@ -574,13 +574,12 @@ Ltac gqargs self Hs :=
             | right; right; right; right; right; reflexivity].
 
 (* a forwarded proposal / read request *)
-Lemma PC_forward self r m r' :
-  In self (l :: ids) -> r_id r = self ->
+Lemma PC_forward r m r' :
   m_type m = MsgPropose \/ m_type m = MsgReadIndex ->
   send r (m <| m_to := r_leader_id r |>) = Ok r' ->
   Forall PC (r_msgs r) -> Forall PC (r_msgs r').
 Proof.
-  intros Hs Hid Hty H F. apply send_full in H. destruct H as (m' & -> & A1 & A2 & A3 & A4 & A5 & A6).
+  intros Hty H F. apply send_full in H. destruct H as (m' & -> & A1 & A2 & A3 & A4 & A5 & A6).
   cbn. apply Forall_app. split; [exact F|]. constructor; [|constructor].
   cbn in A1, A3, A6.
   assert (Hv : is_vote_type (m_type m) = false /\
@@ -633,7 +632,7 @@ Proof.
     { apply N.eqb_eq in E1. dtop Hf; [injection Hf as <- <-; exact Fq'|].
       dtop Hf; [injection Hf as <- <-; exact Fq'|].
       ib Hf y Hy. injection Hf as <- <-.
-      eapply (PC_forward (r_id F)); [exact Hs|reflexivity|left; exact E1|exact Hy|exact Fq']. }
+      eapply PC_forward; [left; exact E1|exact Hy|exact Fq']. }
     destruct (m_type m =? MsgAppend) eqn:E2.
     { ib Hf y Hy. injection Hf as <- <-.
       eapply Hg; [| |eapply (handle_append_entries_GQ PC (r_id F) t ptype); gqargs (r_id F) Hs; exact Hy|exact Fq'];
@@ -651,10 +650,131 @@ Proof.
     destruct (m_type m =? MsgReadIndex) eqn:E7.
     { apply N.eqb_eq in E7. dtop Hf; [injection Hf as <- <-; exact Fq'|].
       ib Hf y Hy. injection Hf as <- <-.
-      eapply (PC_forward (r_id F)); [exact Hs|reflexivity|right; exact E7|exact Hy|exact Fq']. }
+      eapply PC_forward; [right; exact E7|exact Hy|exact Fq']. }
     destruct (m_type m =? MsgReadIndexResp).
     { destruct (m_entries m) as [|e [|e2 rest]]; try (injection Hf as <- <-; exact Fq').
       ib Hf y Hy. injection Hf as <- <-. exact Fq'. }
     injection Hf as <- <-. exact Fq'.
   - right. exact I1.
+Qed.
+
+(* ------------------------------------------------------------------ *)
+(* Part C: a node outside the majority *)
+
+Definition rtype (ty : N) : Prop := ty = MsgAppendResponse \/ ty = MsgHeartbeatResponse.
+
+Lemma rtype_ptype ty : rtype ty -> ptype ty.
+Proof. unfold rtype, ptype. tauto. Qed.
+
+(* no grant recorded from a window member *)
+Definition votes_ok (r : raft) : Prop :=
+  forall id, Quorum.assoc (t_votes (r_prs r)) id = Some true -> ~ In id (l :: ids).
+
+(* the window members are a quorum of the node's (non-empty) configuration *)
+Definition confq (r : raft) : Prop :=
+  incoming (conf_of r) <> [] /\
+  Quorum.has_quorum (incoming (conf_of r)) (outgoing (conf_of r)) (l :: ids) = true.
+
+(* a tally whose grants all come from outside the window members is never Won *)
+Lemma no_win r v :
+  confq r -> (forall id, Quorum.assoc v id = Some true -> ~ In id (l :: ids)) ->
+  tally r v <> VoteWon.
+Proof.
+  intros [Hne Hq] Hv Hw. unfold tally, Quorum.tracker_vote_result in Hw.
+  unfold Quorum.has_quorum in Hq.
+  destruct (joint_vote_result (incoming (conf_of r)) (outgoing (conf_of r))
+              (fun id => if Quorum.mem id (l :: ids) then Some true else None)) eqn:E;
+    try discriminate.
+  destruct (QuorumProofs.joint_vote_won_intersect _ _ _ _ Hw E) as [Hi _].
+  destruct (Hi Hne) as (v0 & _ & A & B).
+  apply (Hv v0 A). apply QuorumProofs.mem_In. destruct (Quorum.mem v0 (l :: ids)); [reflexivity|discriminate].
+Qed.
+
+Section Outsider.
+
+Variable o : N.
+Hypothesis Ho : ~ In o (l :: ids).
+
+(* the outsider's invariant: pre-vote on, term at most t, never leader, the window
+   members are a quorum of its configuration, no grant recorded from a member, and
+   everything in its queue is of the pool class *)
+Definition OInv (r : raft) : Prop :=
+  r_pre_vote r = true /\ r_id r = o /\ r_term r <= t /\ r_state r <> Leader /\
+  confq r /\ votes_ok r /\ Forall PC (r_msgs r).
+
+Lemma PC_plain_o x : rtype (m_type x) -> m_from x = o -> m_term x <= t -> PC x.
+Proof.
+  intros Hty Hf Ht. destruct (ptype_not_v x (rtype_ptype _ Hty)) as [N1 N2].
+  assert (Hn : netmsg (m_type x)) by (apply ptype_netmsg, rtype_ptype, Hty).
+  split; [left; exact Ht|]. split; [exact Hn|].
+  split; [intros V; contradiction|]. split; [intros V; contradiction|].
+  intros _ _. split; [rewrite Hf; exact Ho|]. split; [exact Hn|]. right. right.
+  split; [exact Ht|]. unfold from_leader. destruct Hty as [E|E]; rewrite E; split; [reflexivity|discriminate|reflexivity|discriminate].
+Qed.
+
+Ltac oargs :=
+  try solve [exact PC_batch1 | exact PC_batch2 | intros x; apply PC_plain_o
+            | exact rtype_ptype | left; reflexivity | right; reflexivity].
+
+(* OInv only reads these fields *)
+Lemma OInv_transport r r' :
+  OInv r -> r_pre_vote r' = r_pre_vote r -> r_id r' = r_id r -> r_term r' = r_term r ->
+  r_state r' = r_state r -> conf_of r' = conf_of r -> t_votes (r_prs r') = t_votes (r_prs r) ->
+  Forall PC (r_msgs r') -> OInv r'.
+Proof.
+  intros (I1 & I2 & I3 & I4 & I5 & I6 & I7) E1 E2 E3 E4 E5 E6 F.
+  unfold OInv, confq, votes_ok. rewrite E1, E2, E3, E4, E5, E6. repeat split; try assumption; apply I5.
+Qed.
+
+Lemma OInv_GQ r r' :
+  OInv r -> GQ PC o t r r' -> conf_of r' = conf_of r ->
+  t_votes (r_prs r') = t_votes (r_prs r) -> OInv r'.
+Proof.
+  intros HI [K G] Ec Ev. pose proof HI as (I1 & I2 & I3 & I4 & I5 & I6 & I7).
+  apply keeps_fields in K. destruct K as (K1 & K2 & K3 & K4 & K5).
+  apply cfg_fields in K5. destruct K5 as (C1 & C2 & _).
+  apply (OInv_transport r r' HI); try assumption. apply G; assumption.
+Qed.
+
+Lemma OInv_msgs_log r r' :
+  OInv r -> only_msgs_log r r' -> Forall PC (r_msgs r') -> OInv r'.
+Proof.
+  intros HI E F. unfold only_msgs_log in E.
+  apply (OInv_transport r r' HI); try (rewrite E; reflexivity). exact F.
+Qed.
+
+Lemma OInv_push r x : OInv r -> PC x -> OInv (push r x).
+Proof.
+  intros HI Px. apply (OInv_transport r _ HI); try reflexivity.
+  unfold push. cbn. apply Forall_app. split; [apply HI|]. constructor; [exact Px|constructor].
+Qed.
+
+Lemma OInv_become_follower r tm ld r' :
+  OInv r -> tm <= t -> become_follower r tm ld = Ok r' -> OInv r' /\ r_state r' = Follower /\ r_term r' = tm.
+Proof.
+  intros (I1 & I2 & I3 & I4 & I5 & I6 & I7) Htm H. apply become_follower_facts in H.
+  destruct H as (A1 & A2 & A3 & A4 & A5 & A6 & A7 & A8 & A9 & _).
+  apply cfg_fields in A2. destruct A2 as (C1 & C2 & _).
+  split; [|split; assumption].
+  unfold OInv, confq, votes_ok, conf_of. rewrite C2, C1, A1, A3, A6, A8, A9.
+  repeat split; try assumption; try apply I5; try discriminate.
+Qed.
+
+(* sends of the two response types *)
+Lemma OInv_send_plain r m0 r' :
+  OInv r -> send r m0 = Ok r' -> m_from m0 = INVALID_ID -> rtype (m_type m0) -> OInv r'.
+Proof.
+  intros HI H Hf Hty.
+  assert (G : GQ PC o t r r') by (eapply (send_GQ PC o t rtype); oargs; eassumption).
+  apply send_msgs_only in H. unfold msgs_only in H.
+  eapply OInv_GQ; [exact HI|exact G|rewrite H; reflexivity|rewrite H; reflexivity].
+Qed.
+
+Lemma OInv_forward r m r' :
+  OInv r -> m_type m = MsgPropose \/ m_type m = MsgReadIndex ->
+  send r (m <| m_to := r_leader_id r |>) = Ok r' -> OInv r'.
+Proof.
+  intros HI Hty H. pose proof (send_msgs_only _ _ _ H) as M. unfold msgs_only in M.
+  apply (OInv_transport r r' HI); try (rewrite M; reflexivity).
+  eapply PC_forward; [exact Hty|exact H|apply HI].
 Qed.
